@@ -753,6 +753,86 @@ func c18GenMain(r *rng, idx int) c18RandPkg {
 	return g.finish(dir, name, "")
 }
 
+// c18GenMatrix: one main-stream package sweeping the shapes of interface declarations:
+//   own methods {none, exported, unexported, both} x embeds {nothing, interface with exported methods,
+//   interface with only unexported methods (the sealed-interface idiom), empty interface, constraint},
+// each as an exported and as an unexported declaration, plus an alias of every exported one and a second
+// level of embedding. Every cell the contract binds is in this package in every run; the four cells
+// the unchanged extractor gets wrong (none x empty; methods x constraint) are in the region streams
+// "embedded-empty-dropped" and "constraint-with-methods".
+func c18GenMatrix(r *rng, idx int) c18RandPkg {
+	g := c18NewGen(r)
+	name := r.pick(c18PkgNames)
+	dir := fmt.Sprintf("x%04d/", idx) + fmt.Sprintf(r.pick(c18DirForms), name)
+	g.pf("func Anchor%d() int { return %d }\n\n", idx, idx)
+	// the embeddable interfaces (exported and unexported declarations of each kind)
+	g.pf("type PubE interface {\n\tPub%s\n}\n\ntype pubE interface {\n\tPubq%s\n}\n\n", g.signature(false), g.signature(false))
+	g.pf("type SealE interface {\n\tsealA%s\n}\n\ntype sealE interface {\n\tsealB()\n\tsealC%s\n}\n\n", g.signature(true), g.signature(true))
+	g.pf("type EmptyE interface{}\n\ntype emptyE interface{}\n\n")
+	g.pf("type ConE interface{ %s }\n\ntype conE interface{ %s }\n\n", r.pick([]string{"~int | ~string", "comparable", "int | float64"}), r.pick([]string{"~int | ~string", "comparable", "~[]byte"}))
+	embeds := [][]string{{""}, {"PubE", "pubE", "error"}, {"SealE", "sealE"}, {"EmptyE", "emptyE", "any", "interface{}"}, {"ConE", "conE", "comparable", "~int"}}
+	embName := []string{"None", "Pub", "Seal", "Empty", "Con"}
+	ownName := []string{"None", "Exp", "Unexp", "Both"}
+	n := 0
+	var exported []string
+	for own := 0; own < 4; own++ {
+		for emb := 0; emb < 5; emb++ {
+			if (own == 0 && emb == 3) || (own != 0 && emb == 4) {
+				continue // the regions of the open findings
+			}
+			for _, exp := range []bool{true, false} {
+				n++
+				tn := fmt.Sprintf("M%s%s%d", ownName[own], embName[emb], n)
+				if !exp {
+					tn = "m" + tn[1:]
+				}
+				var lines []string
+				if own == 1 || own == 3 {
+					lines = append(lines, fmt.Sprintf("\tDo%d%s", n, g.signature(false)))
+					if r.bool() {
+						lines = append(lines, fmt.Sprintf("\tRun%d%s", n, g.signature(false)))
+					}
+				}
+				if own == 2 || own == 3 {
+					lines = append(lines, fmt.Sprintf("\tdo%d%s", n, g.signature(true)))
+					if r.bool() {
+						lines = append(lines, fmt.Sprintf("\tis%d()", n))
+					}
+				}
+				if emb != 0 {
+					lines = append(lines, "\t"+r.pick(embeds[emb]))
+					if r.chance(25) && (emb == 2 || emb == 3) {
+						lines = append(lines, "\t"+r.pick(embeds[emb])) // two embedded interfaces of the same kind (duplicates are legal)
+					}
+				}
+				if len(lines) == 0 {
+					g.pf("type %s interface{}\n\n", tn)
+				} else {
+					g.pf("type %s interface {\n%s\n}\n\n", tn, strings.Join(lines, "\n"))
+				}
+				g.use(fmt.Sprintf("iface-cell:own=%s,embeds=%s,exported=%v", ownName[own], embName[emb], exp))
+				if exp && !(own == 0 && (emb == 4 || emb == 0)) { // not the constraint, not the empty interface (embedding only that one is a region)
+					exported = append(exported, tn)
+				}
+			}
+		}
+	}
+	// second level: embedding / aliasing the interfaces above keeps their classification
+	for i := 0; i < 4 && len(exported) > 0; i++ {
+		e := exported[r.intn(len(exported))]
+		switch r.intn(3) {
+		case 0:
+			g.pf("type L2x%d interface{ %s }\n\n", i, e)
+		case 1:
+			g.pf("type L2a%d = %s\n\n", i, e)
+		case 2:
+			g.pf("type L2m%d interface {\n\t%s\n\tlevel%d()\n}\n\n", i, e, i)
+		}
+	}
+	g.use("iface-matrix")
+	return g.finish(dir, name, "")
+}
+
 var c18Regions = []string{"float-const-inexact", "complex-const-inexact", "restricted-by-name", "blank-param", "recv-clash", "string-shape",
 	"member-clash", "unexported-type", "constraint-with-methods", "embedded-empty-dropped", "import-name-clash", "unused-import"}
 
@@ -804,9 +884,17 @@ func c18GenRegion(r *rng, idx int, region string) c18RandPkg {
 		g.pf("type hid%d struct{ x int }\n\ntype Uses%d interface {\n\t%s\n}\n", k, k, r.pick([]string{
 			fmt.Sprintf("M(x hid%d)", k), fmt.Sprintf("M() *hid%d", k), fmt.Sprintf("M(xs ...hid%d) error", k), fmt.Sprintf("M(m map[string][]hid%d)", k)}))
 	case "constraint-with-methods":
-		g.pf("type Con%d interface {\n\t%s\n}\n", k, r.pick([]string{"~string\n\tString() string", "comparable\n\tM()", "~int | ~int64\n\tAdd(int) int", "int\n\tM(a ...string)"}))
+		// own methods exported / unexported / both, by turns
+		switch idx % 3 {
+		case 0:
+			g.pf("type Con%d interface {\n\t%s\n}\n", k, r.pick([]string{"~string\n\tString() string", "comparable\n\tM()", "~int | ~int64\n\tAdd(int) int", "int\n\tM(a ...string)"}))
+		case 1:
+			g.pf("type Con%d interface {\n\t%s\n}\n", k, r.pick([]string{"~string\n\tsealed()", "comparable\n\tm(int) error", "~int | ~int64\n\tadd(int) int"}))
+		case 2:
+			g.pf("type Con%d interface {\n\t%s\n}\n", k, r.pick([]string{"~string\n\tString() string\n\tsealed()", "comparable\n\tM()\n\tm()"}))
+		}
 	case "embedded-empty-dropped":
-		switch r.intn(3) {
+		switch idx % 3 {
 		case 0:
 			g.pf("type Empty%d interface{}\n\ntype Emb%d interface{ Empty%d }\n", k, k, k)
 		case 1:
